@@ -11,13 +11,34 @@ def fragOut (str : List Char) (bytes : List Nat) (r : Except Panic (Option Frag)
   | .ok none => "none"
   | .ok (some f) => s!"{f.pos}:{f.lines}:{bytesToHex (utf8 f.raw)}"
 
+def isAsciiPunct (c : Char) : Bool :=
+  let n := c.toNat
+  (33 ≤ n && n ≤ 47) || (58 ≤ n && n ≤ 64) || (91 ≤ n && n ≤ 96) || (123 ≤ n && n ≤ 126)
+
+/-- `unescape_all` on text WITHOUT `&`: only the backslash alternative of the pattern can match
+    (driver-side stand-in for the decoder, which the verified model leaves abstract) -/
+def decBackslash : List Char → List Char
+  | [] => []
+  | [c] => [c]
+  | c :: x :: r =>
+    if c = '\\' && isAsciiPunct x then x :: decBackslash r else c :: decBackslash (x :: r)
+termination_by l => l.length
+
+def optHex (o : Option (List Nat)) : String :=
+  match o with
+  | none => "none"
+  | some bs => bytesToHex bs
+
 /-- stream `link`:
     * `validate <hex>`              → `1` / `0`, `non-ascii` if a byte ≥ 128 occurs
     * `normalize <hex>`             → hex of `normalize_link`
     * `dest <hex> <start> <max>`    → `none` | `<pos>:<lines>:<hex of the RAW slice>` | `PANIC:slice`
     * `title <hex> <start> <max>`   → same shape
     * `scheme <hex>`                → hex of the browser's scheme | `none`
-    * `dangerous <hex>`             → `1` / `0` -/
+    * `dangerous <hex>`             → `1` / `0`
+    * `inline <hex> <pos> <max>`    → `parse_link` from `pos = label_end + 1`, inline form only:
+                                      `none` | `<end>:<href hex|none>:<title hex|none>` | `PANIC:slice`;
+                                      `needs-dec` when the text contains `&` (see `decBackslash`) -/
 def handle (args : List String) : String :=
   match args with
   | ["validate", hex] =>
@@ -52,6 +73,17 @@ def handle (args : List String) : String :=
     match hexToBytes hex with
     | some bs => if dangerous bs then "1" else "0"
     | none => "bad-args"
+  | ["inline", hex, posS, maxS] =>
+    match hexToBytes hex, hexToChars hex, posS.toNat?, maxS.toNat? with
+    | some bs, some cs, some pos, some max =>
+      if utf8 cs != bs then "MODEL-INTERNAL-MISMATCH"
+      else if cs.contains '&' then "needs-dec"
+      else
+        match parseInlineTail decBackslash cs pos max with
+        | .error .slice => "PANIC:slice"
+        | .ok none => "none"
+        | .ok (some l) => s!"{l.endPos}:{optHex l.href}:{optHex (l.title.map utf8)}"
+    | _, _, _, _ => "bad-args"
   | _ => "bad-op"
 
 end Driver.Link
